@@ -160,6 +160,31 @@ def build_app(track=None):
     def anon_files(*a):
         return 'file listing'
 
+    kept = {}
+
+    @app.route('/bye')
+    def bye():
+        # a response prepared once (a copy of the application's response at that moment) and raised again and again
+        if 'resp' not in kept:
+            app.response.delete_cookie('sid', path='/')
+            app.response.headers['X-Bye'] = 'prepared'
+            kept['resp'] = app.response.copy(cls=HTTPResponse)
+            kept['resp'].status = 303
+            kept['resp'].headers['Location'] = '/login'
+        raise kept['resp']
+
+    @app.route('/logout')
+    def logout():
+        app.response.delete_cookie('sid', path='/')
+        return 'bye'
+
+    @app.route('/relogin')
+    def relogin():
+        m = app.request.query.get('m', 'none')
+        app.response.delete_cookie('sid', path='/')
+        app.response.set_cookie('sid', 'token-of-' + m, path='/', httponly=True)
+        return 'welcome back'
+
     @app.route('/peek')
     def peek():
         # a request without a body has no form fields, whatever was posted before
@@ -235,6 +260,13 @@ def kinds():
         'chunked_urlform': lambda m: dict(method='POST', path='/form', qs='m=' + m, content_type='application/x-www-form-urlencoded', chunked=True, content_length=None,
                                           stream=b'4\r\na=' + m.encode()[:1] + b'x\r\n' + b'%x\r\n' % (len(m) + 4) + m.encode() + b'&b=2\r\n0\r\n\r\n'),
         'peek': lambda m: dict(method='GET', path='/peek', qs='m=' + m),
+        'prepared_bye': lambda m: dict(method='GET', path='/bye'),
+        'logout': lambda m: dict(method='GET', path='/logout'),
+        'relogin': lambda m: dict(method='GET', path='/relogin', qs='m=' + m),
+        # a long form first, then forms that end before the length they announce
+        'urlform_long': lambda m: dict(method='POST', path='/form', body=('a=' + m + '&password=' + 'S3cret-' * 9 + m).encode(), content_type='application/x-www-form-urlencoded'),
+        'urlform_cut': lambda m: dict(method='POST', path='/form', stream=('a=' + m).encode(), content_length=len(m) + 40, content_type='application/x-www-form-urlencoded'),
+        'json_cut': lambda m: dict(method='POST', path='/json', stream=('{"m": "' + m + '"}').encode(), content_length=len(m) + 60, content_type='application/json'),
         'greet_known': lambda m: dict(method='GET', path='/greet', headers={'Cookie': 'user=' + m}),
         'greet_stranger': lambda m: dict(method='GET', path='/greet', qs='m=' + m),
         'anon_wildcard_path': lambda m: dict(method='GET', path='/files/' + m + '/x.txt'),
@@ -252,7 +284,7 @@ def kinds():
 
 VARIANTS = ['A1', 'B22xx']      # different lengths: pages that embed the URL differ in size
 SUCCESS = {'ok', 'plain', 'raise', 'head', 'gen', 'form', 'urlform', 'signed', 'goodjson', 'gen_cookie', 'file', 'file_wrapped', 'file_wrapped_head', 'session', 'ok_http10',
-           'chunked_urlform', 'peek', 'spilled_echo', 'cookies_bad', 'cookies_ok', 'form_repeated', 'greet_known', 'greet_stranger', 'anon_wildcard_path'}
+           'chunked_urlform', 'peek', 'spilled_echo', 'cookies_bad', 'cookies_ok', 'form_repeated', 'greet_known', 'greet_stranger', 'anon_wildcard_path', 'prepared_bye', 'logout', 'relogin', 'urlform_long', 'urlform_cut'}
 SHARED_ERR = {'badchunk', 'badmultipart', 'oversized', 'noname_part', 'badjson_json', 'badchunk_json', 'oversized_json', 'cutmp_in_closing_delimiter', 'cutmp_in_first_delimiter'}
 
 
